@@ -267,6 +267,33 @@ func boostWide(t *rapid.T) (map[string]interface{}, []Step) {
 	} else if rapid.Bool().Draw(t, "star") {
 		steps = []Step{{"*", -1}}
 	}
+	if rapid.IntRange(0, 3).Draw(t, "rows") == 0 {
+		// several parents whose final lists together exceed the initial capacity
+		nr := rapid.IntRange(2, 6).Draw(t, "nrows")
+		rows := make([]interface{}, nr)
+		x := 0
+		for i := range rows {
+			ni := rapid.IntRange(3, 20).Draw(t, "nitems")
+			items := make([]interface{}, ni)
+			for j := range items {
+				items[j] = float64(x)
+				x++
+			}
+			var row interface{} = map[string]interface{}{k2: items}
+			if rapid.IntRange(0, 5).Draw(t, "rowkind") == 0 {
+				row = map[string]interface{}{k2: float64(x)}
+				x++
+			}
+			rows[i] = row
+		}
+		root = map[string]interface{}{k1: rows, "o": "x"}
+		steps = []Step{{k1, -1}, {k2, -1}}
+		if rapid.IntRange(0, 3).Draw(t, "wrap") == 0 {
+			root = map[string]interface{}{"doc": root}
+			steps = append([]Step{{"doc", -1}}, steps...)
+		}
+		return root, steps
+	}
 	if rapid.IntRange(0, 3).Draw(t, "widemap") == 0 {
 		// a wide map addressed with "*"
 		m := map[string]interface{}{}
